@@ -677,6 +677,62 @@ func init() {
 		p.S.WaitIdle()
 		p.T.Emit(TakeSnap(p.S, "run", true))
 	}})
+	// A crash in the middle of freeing leaves a half-freed inode; the number is handed out again by the next CREATE,
+	// which must complete the freeing first (getAlloc: abort, DoShrink, retry) without losing the number or any block.
+	Probes = append(Probes, Probe{"create-on-half-freed-inode", []string{"C05", "C10"}, 16000, func(p *P) {
+		const B = 4096
+		f := p.Create(p.Root, "big").RFh
+		for i := 0; i < 6; i++ {
+			p.Write(f, i*100*B, 100*B, 2)
+		}
+		release := make(chan struct{})
+		Mon.Yield = func(ev string) {
+			if ev != "begin" {
+				return
+			}
+			buf := make([]byte, 8192)
+			n := runtime.Stack(buf, false)
+			if strings.Contains(string(buf[:n]), "shrinker.") && !strings.Contains(string(buf[:n]), "NFSPROC3_") {
+				select {
+				case <-release:
+				case <-time.After(60 * time.Second):
+				}
+			}
+		}
+		p.Remove(p.Root, "big") // the inode is free, its blocks are still to be freed by the (parked) shrinker
+		// crash: the disk as it is (every call so far was acknowledged stable), a new instance on a copy of it
+		old := p.S
+		img := p.S.D.Clone()
+		s2, err := Start(img, p.Unst)
+		if err != nil {
+			p.T.Emit(map[string]interface{}{"ev": "fatal", "what": err.Error()})
+			close(release)
+			return
+		}
+		s2.Sequential = true
+		s2.wtmax, s2.maxfs = old.wtmax, old.maxfs
+		p.S = s2
+		p.T.Emit(Restart{Ev: "restart", Kind: "crash", Dump: DumpAPI(s2.API, "restarted")})
+		p.T.Emit(TakeSnap(p.S, "recovered", true)) // a half-freed inode is legitimate here
+		for _, n := range []string{"a", "b", "c"} {
+			c := p.Create(p.Root, n)
+			if c.St == "OK" {
+				p.Write(c.RFh, 0, 5000, 2)
+			}
+		}
+		p.S.WaitIdle()
+		p.T.Emit(TakeSnap(p.S, "run", true))
+		for _, n := range []string{"a", "b", "c"} {
+			p.Remove(p.Root, n)
+		}
+		p.S.WaitIdle()
+		p.T.Emit(TakeSnap(p.S, "run", true))
+		p.Dump()
+		p.Tail()
+		Mon.Yield = nil
+		close(release) // the abandoned instance may finish its freeing on the old disk
+		old.WaitIdle()
+	}})
 	// A SYMLINK whose target needs two blocks when one is free: refused without effect, or stored completely.
 	Probes = append(Probes, Probe{"symlink-target-with-one-block-free", []string{"C09", "C02", "C05"}, 1700, func(p *P) {
 		filler := p.Create(p.Root, "filler").RFh
